@@ -77,6 +77,22 @@ Theorem C37_refines_spec : forall d m0 modes h,
 Proof. exact refines_spec. Qed.
 Print Assumptions C37_refines_spec.
 
+(* ---- the close paths as they are in the source text now (C37/Gen.v, regenerated on every run).
+   The model's OpClose is DEFINED from these lists (Model.v: inline_sets_null, inline_clears,
+   ool_sets_null, ool_clears), so every theorem above is about the current text: dropping the
+   dict clearing or the handle reset from a close path breaks Proofs.v. *)
+Theorem C37_gen_close_paths :
+  (* in-line: FFILibrary.__cffi_close__ calls close_lib() and clears __dict__;
+     dl_close_lib dlclose()s and resets dl_handle *)
+  has CallCloseLib inline_close = true /\ has ClearDict inline_close = true /\
+  has DlClose backend_close_lib = true /\ has SetHandleNull backend_close_lib = true /\
+  (* out-of-line: ffi_dlclose resets l_libhandle and clears l_dict BEFORE it calls dlclose
+     (whose failure returns early: the lib must already be closed for Python) *)
+  before SetHandleNull DlClose ool_close = true /\ before ClearDict DlClose ool_close = true /\
+  has DlClose ool_close = true.
+Proof. vm_compute. repeat split; reflexivity. Qed.
+Print Assumptions C37_gen_close_paths.
+
 (* non-vacuity: a history that caches a function, a variable and an address, closes, and
    tries everything again, in both modes; the other lib keeps working *)
 Example C37_example :
